@@ -1,0 +1,11 @@
+//go:build verif
+
+package mod
+
+import (
+	"time"
+
+	"github.com/jrhy/s3db"
+)
+
+func verifNowOr(t time.Time) time.Time { return s3db.VerifNowOr(t) }
